@@ -204,6 +204,114 @@ def hookCreate (xrd : Xrd) : Prog Req Resp Verdict := hook (validate xrd) xrd dr
 def hookUpdate (new old : Xrd) : Prog Req Resp Verdict :=
   hook (validateUpdate new old) new (dryRunAllUpdate Xp.Gen.xrdWebhookRetrySteps)
 
+/-- the statements of `ValidateCreate / ValidateUpdate / dryRunUpdateOrCreateIfNotFound / rewriteError` (internal/validation/apiextensions/v1/xrd/handler.go) that the definitions above mirror, one entry per
+statement with the model step that mirrors it (Props/C11: skeleton obligations against the list
+regenerated from the current tree) -/
+def skelHookValidateCreate : List String := [
+  "func (v *validator) ValidateCreate(ctx context.Context, obj runtime.Object) (warns admission.Warnings, err error)",  -- hookCreate xrd = hook (validate xrd) xrd dryRunAllCreate
+  "in, ok := obj.(*v1.CompositeResourceDefinition)",  -- not modelled: the harness always hands the validator XRDs
+  "if !ok",  -- not modelled
+  "return nil, errors.New(errNotCompositeResourceDefinition)",  -- not modelled
+  "end",
+  "validationWarns, validationErr := in.Validate()",  -- hookCreate: validate xrd
+  "warns = append(warns, validationWarns...)",  -- warnings are always nil (validate returns none): not modelled
+  "if validationErr != nil",  -- hook: if errs ≠ []
+  "return validationWarns, validationErr.ToAggregate()",  -- .ret (.invalid errs)
+  "end",
+  "crds, err := getAllCRDsForXRD(in)",  -- hook: match allCrds xrd
+  "if err != nil",  -- | .error (w, e)
+  "return warns, xperrors.Wrap(err, \"cannot get CRDs for CompositeResourceDefinition\")",  -- .ret (.crdError w e)
+  "end",
+  "for _, crd := range crds",  -- dryRunAllCreate: recursion over the CRDs
+  "if err := v.client.Create(ctx, crd, client.DryRunAll); err != nil",  -- .call (.create true c)
+  "return warns, v.rewriteError(err, in, crd)",  -- | .err e => .ret (rewriteError w e)
+  "end",
+  "end",
+  "return warns, nil"]  -- dryRunAllCreate [] = .ret .allowed
+
+
+def skelHookValidateUpdate : List String := [
+  "func (v *validator) ValidateUpdate(ctx context.Context, oldObj, newObj runtime.Object) (warns admission.Warnings, err error)",  -- hookUpdate new old = hook (validateUpdate new old) new (dryRunAllUpdate xrdWebhookRetrySteps)
+  "oldXRD, ok := oldObj.(*v1.CompositeResourceDefinition)",  -- not modelled: the harness always hands the validator XRDs
+  "if !ok",  -- not modelled
+  "return nil, errors.New(errUnexpectedType)",  -- not modelled
+  "end",
+  "newXRD, ok := newObj.(*v1.CompositeResourceDefinition)",  -- not modelled
+  "if !ok",  -- not modelled
+  "return nil, errors.New(errUnexpectedType)",  -- not modelled
+  "end",
+  "validationWarns, validationErr := newXRD.ValidateUpdate(oldXRD)",  -- hookUpdate: validateUpdate new old
+  "warns = append(warns, validationWarns...)",  -- warnings are always nil: not modelled
+  "if validationErr != nil",  -- hook: if errs ≠ []
+  "return validationWarns, validationErr.ToAggregate()",  -- .ret (.invalid errs) (immutable_webhook_no_call)
+  "end",
+  "crds, err := getAllCRDsForXRD(newXRD)",  -- hook: match allCrds new (the NEW XRD)
+  "if err != nil",  -- | .error (w, e)
+  "return warns, xperrors.Wrap(err, \"cannot get CRDs for CompositeResourceDefinition\")",  -- .ret (.crdError w e)
+  "end",
+  "for _, crd := range crds",  -- dryRunAllUpdate: recursion over the CRDs
+  "err := v.dryRunUpdateOrCreateIfNotFound(ctx, crd)",  -- Prog.bind (retryOnConflict steps c)
+  "if err != nil",  -- | .err e
+  "return warns, v.rewriteError(err, newXRD, crd)",  -- .ret (rewriteError w e)
+  "end",
+  "end",
+  "return warns, nil"]  -- dryRunAllUpdate _ [] = .ret .allowed
+
+
+def skelHookDryRun : List String := [
+  "func (v *validator) dryRunUpdateOrCreateIfNotFound(ctx context.Context, crd *apiextv1.CustomResourceDefinition) error",  -- retryOnConflict steps crd
+  "return retry.RetryOnConflict(retry.DefaultRetry, func() error {}, )",  -- retryOnConflict: Xp.Gen.xrdWebhookRetrySteps attempts, a Conflict is retried (client-go retry.OnError: mirrored, steps regenerated)
+  "got := crd.DeepCopy()",  -- attempt crd: the derived object
+  "err := v.client.Get(ctx, client.ObjectKey{Name: crd.Name}, got)",  -- .call (.get crd.name) (answered by the informer cache)
+  "if err == nil",  -- | .found rv
+  "got.Spec = crd.Spec",  -- Req.update carries the derived crd and the read resourceVersion rv
+  "return v.client.Update(ctx, got, client.DryRunAll)",  -- .call (.update true rv crd) .ret
+  "end",
+  "if kerrors.IsNotFound(err)",  -- | .err .notFound
+  "return v.client.Create(ctx, crd, client.DryRunAll)",  -- .call (.create true crd) .ret
+  "end",
+  "return err"]  -- | .err e => .ret (.err e)
+
+
+def skelHookRewriteError : List String := [
+  "func (v *validator) rewriteError(err error, in *v1.CompositeResourceDefinition, crd *apiextv1.CustomResourceDefinition) error",  -- rewriteError (w : String) (e : ErrClass) : Verdict
+  "if err == nil",  -- not modelled: the callers pass non-nil errors only
+  "return nil",  -- not modelled
+  "end",
+  "var apiErr *kerrors.StatusError",
+  "if errors.As(err, &apiErr)",  -- every ErrClass but transport / deadline is a *StatusError
+  "apiErr.ErrStatus.Message = \"invalid CRD generated for CompositeResourceDefinition: \" + apiErr.ErrStatus.Message",  -- message text not modelled
+  "apiErr.ErrStatus.Details.Kind = v1.CompositeResourceDefinitionKind",  -- if e = .bare ∧ xrdWebhookBareStatusPanics then .panic w (Details is nil: level_note (5))
+  "apiErr.ErrStatus.Details.Group = v1.Group",  -- details not modelled
+  "apiErr.ErrStatus.Details.Name = in.GetName()",  -- details not modelled
+  "for i, cause := range apiErr.ErrStatus.Details.Causes",  -- causes not modelled
+  "cause.Field = fmt.Sprintf(\"<generated_CRD_%q>.%s\", crd.GetName(), cause.Field)",  -- causes not modelled
+  "apiErr.ErrStatus.Details.Causes[i] = cause",  -- causes not modelled
+  "end",
+  "return apiErr",  -- .rejected w e
+  "end",
+  "return err"]  -- .rejected w e (transport, deadline)
+
+
+/-! the calls through the validator's client as a FUNCTION of the model: the verbs of the requests of
+a program in preorder, exploring at every call the replies in `resps` (Props/C11: equal to the
+verbs go/ast finds on `v.client` in the current tree, source order) -/
+
+def Req.verb : Req → String
+  | .get _ => "Get"
+  | .update dry _ _ => if dry then "Update:dryRun" else "Update"
+  | .create dry _ => if dry then "Create:dryRun" else "Create"
+
+def progVerbs (resps : List Resp) : Prog Req Resp α → List String
+  | .ret _ => []
+  | .call r k => r.verb :: resps.flatMap fun x => progVerbs resps (k x)
+
+/-- the closure of dryRunUpdateOrCreateIfNotFound: Get, then Update (found) or Create (NotFound) -/
+def callsHookDryRun (crd : Crd) : List String := progVerbs [.found 0, .err .notFound] (attempt crd)
+
+/-- the loop body of ValidateCreate: one dry-run Create per CRD -/
+def callsHookValidateCreate (crd : Crd) : List String := progVerbs [.ok] (dryRunAllCreate [("xr", crd)])
+
 /-- the world is quiet: the cache is up to date, no call is about to fail -/
 def World.quiet (w : World) : Prop := w.inject = none ∧ ∀ n, lookup n w.cache = lookup n w.live
 
